@@ -2,6 +2,7 @@ import Compute.Drv.Common
 import Compute.Model.Scalar
 import Compute.Model.Solve
 import Compute.Model.Glm
+import Compute.Model.GlmObj
 /-
 Driver for C06 (GLM fitting).  Request:
   `glm <family> n p <x: n*p floats> <y: n floats> <0 | 1 len w…> <0 | 1 len off…> alpha tol maxiter`
@@ -72,6 +73,57 @@ def c06RunHist (fam : Family) : List C06HistStep → Option (List Float) → Opt
       | none => none
       | some reps => some (c06ReportBody r x y :: reps)
 
+/-- `1e-5`, the default tolerance of `GLM::new` -/
+def c06Tol0 : Float := Float.ofBits 0x3EE4F8B588E368F1
+
+/-- the step kinds of `hist2` (an object history with READS between the fits and no forced setter):
+`F <mode> alpha tol maxiter <problem>`: mode 0 = leave alpha / tolerance as they are, 1 = `set_penalty` + `set_tolerance`,
+2 = assign the pub fields; weights / offsets of the problem (if given) are set before the fit; then `fit`;
+`R` = read every accessor (report on the data of the last fit);
+`SP a`, `ST t`, `SW vec`, `SO vec`, `SC vec` = `set_penalty`, `set_tolerance`, `set_weights`, `set_offset`, `set_coef`. -/
+inductive C06H where
+  | fit (mode : Nat) (alpha tol : Float) (mi : Nat) (x y : List Float) (w off : Option (List Float))
+  | read
+  | setP (a : Float) | setT (t : Float) | setW (w : List Float) | setO (o : List Float) | setC (c : List Float)
+
+def c06H : P C06H := do
+  let k ← tok
+  match k with
+  | "F" => do
+    let mode ← pNat; let alpha ← pFloat; let tol ← pFloat; let mi ← pNat
+    let (x, y, w, off) ← c06Problem
+    pure (.fit mode alpha tol mi x y w off)
+  | "R" => pure .read
+  | "SP" => do let a ← pFloat; pure (.setP a)
+  | "ST" => do let a ← pFloat; pure (.setT a)
+  | "SW" => do let v ← pVec; pure (.setW v)
+  | "SO" => do let v ← pVec; pure (.setO v)
+  | "SC" => do let v ← pVec; pure (.setC v)
+  | _ => failure
+
+/-- run a history on the object model; collects the reports of the `R` steps (`none` = a step panicked) -/
+def c06RunH : List C06H → Obj Float → List Float → List Float → Option (List String)
+  | [], _, _, _ => some []
+  | .fit mode alpha tol mi x y w off :: rest, o, _, _ =>
+    let o1 := if mode = 0 then o else (o.setPenalty alpha).setTolerance tol
+    let o2 := match w with | some w => o1.setWeights w | none => o1
+    let o3 := match off with | some v => o2.setOffset v | none => o2
+    match o3.fit Cv.solve x y mi with
+    | none => none
+    | some o4 => c06RunH rest o4 x y
+  | .read :: rest, o, x, y =>
+    match o.view with
+    | none => none      -- never fitted: `deviance().unwrap()` panics
+    | some r =>
+      match c06RunH rest o x y with
+      | none => none
+      | some reps => some (c06ReportBody r x y :: reps)
+  | .setP a :: rest, o, x, y => c06RunH rest (o.setPenalty a) x y
+  | .setT a :: rest, o, x, y => c06RunH rest (o.setTolerance a) x y
+  | .setW v :: rest, o, x, y => c06RunH rest (o.setWeights v) x y
+  | .setO v :: rest, o, x, y => c06RunH rest (o.setOffset v) x y
+  | .setC v :: rest, o, x, y => c06RunH rest (o.setCoef v) x y
+
 def c06Step (args : List String) : String :=
   match args with
   | "glm" :: famS :: rest =>
@@ -141,6 +193,15 @@ def c06Step (args : List String) : String :=
     | some fam =>
       withArgs (do let k ← pNat; pMany c06HistStep k) rest fun steps =>
         match c06RunHist fam steps none none with
+        | none => panicked
+        | some reps => ok (" ; ".intercalate reps)
+  -- object history with reads between the fits: `hist2 <family> k <step>*k`, reply = the reports of the `R` steps
+  | "hist2" :: famS :: rest =>
+    match c06Family famS with
+    | none => badOp
+    | some fam =>
+      withArgs (do let k ← pNat; pMany c06H k) rest fun steps =>
+        match c06RunH steps (Obj.new fam c06Tol0) [] [] with
         | none => panicked
         | some reps => ok (" ; ".intercalate reps)
   -- the methods of `ExponentialFamily`, called directly
